@@ -2,6 +2,7 @@ import OmbottModel.Model.WsgiConc
 import OmbottModel.Lemmas.TsPropsMachine
 import OmbottModel.Lemmas.WsgiConcRun
 import OmbottModel.Lemmas.ConfigFrame
+import OmbottModel.Lemmas.ConfigMixin
 /-!
 C10 — Application objects in one process are independent of each other.
 Property theorems only; helper lemmas live in `Lemmas/TsProps*.lean`, `Lemmas/WsgiConcRun.lean`.
@@ -492,6 +493,29 @@ theorem proxy_forward_reaches (prop a t : Name) (targets : Targets) (inst : ALis
   have hm' : a ∈ meths := by simpa using hm
   simp [proxyCall, aget, hp, ht, hm']
 
+/-- **mixin_attrs_exact**: for EVERY list of mixins, the class dict `MixableMeta._mixin` produces binds a name to the
+class's own definition when it has one, otherwise to the definition of the FIRST mixin (in base order) in which the
+name is eligible (not one of that mixin's slots, not `on_new` / `on_init`, not a dunder name), otherwise not at all;
+and `__mixins_special__` holds the mixins' `on_new` / `on_init` in mixin order. -/
+theorem mixin_attrs_exact (cs : MClasses) (dct : MDct) (mixins : List MClass) :
+    (∀ k, aget (mixin cs dct mixins).attrs k = (aget dct.attrs k).orElse fun _ => firstMixin cs mixins k) ∧
+    (mixin cs dct mixins).special = some (specialsOf cs "on_new" mixins, specialsOf cs "on_init" mixins) := by
+  unfold mixin
+  refine ⟨fun k => ?_, ?_⟩
+  · simpa using foldMixins_attrs cs mixins k
+      { attrs := dct.attrs, slots := dct.slots.getD [], onNew := [], onInit := [] }
+  · obtain ⟨a, b⟩ := foldMixins_specials cs mixins
+      { attrs := dct.attrs, slots := dct.slots.getD [], onNew := [], onInit := [] }
+    simp [a, b]
+
+/-- the wrappers `MixableMeta.__init__` installs call what they wrapped FIRST and then every collected special in order
+(`on_new` after the class's own `__new__`, `on_init` after its own `__init__`) -/
+theorem specials_called_in_order (cs : MClasses) (c : MClass) (inner : Callable) (ns is : List String)
+    (hs : specialOf cs c = some (ns, is)) :
+    (∀ t, runNew cs c inner = .ok t → runNew cs c (.wrapper inner) = .ok (t ++ ns.map ("on_new:" ++ ·))) ∧
+    (∀ t, runInit cs c inner = .ok t → runInit cs c (.wrapper inner) = .ok (t ++ is.map ("on_init:" ++ ·))) := by
+  constructor <;> intro t ht <;> simp [runNew, runInit, ht, hs]
+
 section NonVacuity
 
 /-- `get_from_total_and_exact` / `get_from_new_object`: `DefaultConfig.get_from({'debug': True, 'zz': 1}, catchall=0)`
@@ -553,6 +577,17 @@ example : ∀ a ∈ Gen.cfgHeaderDictProxied,
 /-- `cached_property_once` / `cached_property_per_instance`: a sequence on two instances; the getter ran three times -/
 example : (cpTrace {} [.get 1 .ok, .get 2 .ok, .get 1 .ok, .del 1, .get 1 .ok, .set 2 (.int 9), .get 2 .ok]).map (·.2) =
     [true, true, false, false, true, false, false] := by
+  decide
+
+/-- `mixin_attrs_exact` / `specials_called_in_order`: two mixins, the first with a slot; own `y` wins over `M2.y`, `M1.x`
+over `M2.x`, the slot `s` and the dunder name are not copied, the specials are collected in order and called -/
+example :
+    let m1 : MClass := { name := "M1", bases := [], mro := ["M1"], slots := some ["s"],
+                         attrs := [("x", "M1.x"), ("s", "M1.s"), ("on_init", "M1.on_init")] }
+    let m2 : MClass := { name := "M2", bases := [], mro := ["M2"],
+                         attrs := [("x", "M2.x"), ("y", "M2.y"), ("on_init", "M2.on_init"), ("__d__", "M2.__d__")] }
+    let r := mixin [m1, m2] { attrs := [("y", "A.y")] } [m1, m2]
+    r.attrs = [("y", "A.y"), ("x", "M1.x")] ∧ r.special = some ([], ["M1.on_init", "M2.on_init"]) ∧ r.slots = some ["s"] := by
   decide
 
 end NonVacuity
